@@ -133,8 +133,8 @@ theorem init_invM2 (t c : Nat) (hc : c < 2 ^ 31) : InvM { timeoutMs := t, counte
 theorem init_invG (t c : Nat) (hc : c < 2 ^ 31) : InvG { timeoutMs := t, counter := c, base := c } := by
   refine ⟨hc, rfl, ?_, ?_, ?_⟩
   · intro r hr; cases hr
-  · show (corrSeqNos []).length ≤ _; rw [corrSeqNos_nil]; exact Nat.zero_le _
-  · show corrSeqNos [] = _; rw [corrSeqNos_nil]; rfl
+  · intro n hn; rw [show ({ timeoutMs := t, counter := c, base := c } : St).reqs = [] from rfl, corrSeqNos_nil] at hn; cases hn
+  · show (corrSeqNos []).Pairwise (· < ·); rw [corrSeqNos_nil]; exact List.Pairwise.nil
 
 theorem reachable_inv {s : St} (h : Reachable s) : Inv s ∧ InvM s := by
   obtain ⟨t, c, ops, hc, rfl⟩ := h
@@ -247,32 +247,39 @@ theorem map_nodup_ne {α β} {l : List α} {f : α → β} (h : (l.map f).Nodup)
     · intro he; exact h.1 (he ▸ List.mem_map.mpr ⟨a, ha', rfl⟩)
     · exact ih h.2 ha' hb'
 
-/-- **requests in flight never share a correlation id** (unless 2^31 or more are outstanding at
-    once): in every reachable state two different queued requests carry different ids, across the
-    wrap of the counter at 2^31 and whatever value it started from -/
+/-- **requests in flight never share a correlation id** (unless 2^31 or more correlation ids were
+    consumed while the older request was waiting): in every reachable state two different queued
+    requests carry different ids, across the wrap of the counter at 2^31, whatever value it started
+    from, and whatever number of requests without a reply (acks=0 produce) was sent in between.
+    `s.sent - r.seqNo` is the number of ids consumed since `r` was sent. -/
 theorem c12_inflight_distinct {s : St} (h : Reachable s) (r1 r2 : Req) (h1 : r1 ∈ s.reqs)
     (h2 : r2 ∈ s.reqs) (hne : r1 ≠ r2) (c1 c2 : Nat) (hc1 : r1.corr = some c1) (hc2 : r2.corr = some c2)
-    (hfew : (s.reqs.filter (fun r => r.corr.isSome)).length ≤ 2 ^ 31) : c1 ≠ c2 := by
+    (hfew : ∀ r ∈ s.reqs, s.sent - r.seqNo < 2 ^ 31) : c1 ≠ c2 := by
   have hg := reachable_invG h
   have e1 := hg.corr_seq r1 h1 c1 hc1
   have e2 := hg.corr_seq r2 h2 c2 hc2
   have m1 : r1 ∈ s.reqs.filter (fun r => r.corr.isSome) := List.mem_filter.mpr ⟨h1, by simp [hc1]⟩
   have m2 : r2 ∈ s.reqs.filter (fun r => r.corr.isSome) := List.mem_filter.mpr ⟨h2, by simp [hc2]⟩
-  have hw := hg.window
-  unfold corrSeqNos at hw
-  have hlen : ((s.reqs.filter (fun r => r.corr.isSome)).map (·.seqNo)).length
-      = (s.reqs.filter (fun r => r.corr.isSome)).length := List.length_map _
-  have hnd : ((s.reqs.filter (fun r => r.corr.isSome)).map (·.seqNo)).Nodup := by
-    rw [hw]; exact List.nodup_range'
+  have hs := hg.nos_sorted
+  unfold corrSeqNos at hs
+  have hnd : ((s.reqs.filter (fun r => r.corr.isSome)).map (·.seqNo)).Nodup :=
+    List.Pairwise.imp (fun hab => Nat.ne_of_lt hab) hs
   have hk : r1.seqNo ≠ r2.seqNo := map_nodup_ne hnd m1 m2 hne
-  have in1 : r1.seqNo ∈ (s.reqs.filter (fun r => r.corr.isSome)).map (·.seqNo) := List.mem_map.mpr ⟨r1, m1, rfl⟩
-  have in2 : r2.seqNo ∈ (s.reqs.filter (fun r => r.corr.isSome)).map (·.seqNo) := List.mem_map.mpr ⟨r2, m2, rfl⟩
-  rw [hw, List.mem_range'_1] at in1 in2
-  rw [hlen] at in1 in2
+  have le1 : r1.seqNo ≤ s.sent := hg.nos_le _ (List.mem_map.mpr ⟨r1, m1, rfl⟩)
+  have le2 : r2.seqNo ≤ s.sent := hg.nos_le _ (List.mem_map.mpr ⟨r2, m2, rfl⟩)
+  have f1 := hfew r1 h1
+  have f2 := hfew r2 h2
   rw [e1, e2]
   rcases Nat.lt_or_gt_of_ne hk with hlt | hgt
   · exact c12_corr_wrap s.base r1.seqNo r2.seqNo hg.base_lt hlt (by omega)
   · exact (c12_corr_wrap s.base r2.seqNo r1.seqNo hg.base_lt hgt (by omega)).symm
+
+/-- a request that expects no reply (acks=0) leaves no waiter behind: the queue, and with it every
+    later reply's matching, is untouched; only a correlation id is consumed -/
+theorem c12_no_reply_send_leaves_queue (s : St) :
+    (step s .sendNR).reqs = s.reqs ∧ (step s .sendNR).out = s.out ∧ (step s .sendNR).isOpen = s.isOpen := by
+  simp only [step, sendNR]
+  split <;> exact ⟨rfl, rfl, rfl⟩
 
 example : nextCorr (2 ^ 31 - 1) = 0 := by decide
 
